@@ -35,6 +35,10 @@ HEAD = ("From PT Require Import Base.Str Base.Codes Model.Types Model.Value Mode
         "  end.\n")
 
 
+JUDGE2 = ("Definition judge2 (c : ctx * pz * term * str * list str) : N := let '(cx, p, t, exp, ev) := c in\n"
+          "  judge c + (match pcheck cx t exp with Some true => 6 | Some false => 4 | None => 0 end) + (if known t then 8 else 0).\n")
+
+
 def ctx_coq(c: SqlContext) -> str:
     return "(MkCtx %s %s %s %s %s %s %s %s %s %s %s)" % (
         cstr(c.quote_char), cstr(c.secondary_quote_char), cstr(c.alias_quote_char), c.dialect.name,
@@ -109,9 +113,12 @@ class Corr:
             outs.append(r)
         return outs
 
-    def evaluate(self, shard_objs=60):
-        """Returns list of booleans (model agrees) aligned with self.cases, or None when the case
-        files could not be evaluated."""
+    def evaluate(self, shard_objs=60, pcheck=None):
+        """Returns (agree, errors): agree is a list aligned with self.cases of booleans (model agrees) or None when
+        a case file could not be evaluated.  With pcheck = (imports, coq_text) defining
+            pcheck : ctx -> term -> str -> option bool      (the property judged on the IMPLEMENTATION's text)
+            known  : term -> bool                           (inside a listed known-finding class)
+        self.verdicts[i] = dict(agree, pcheck: True/False/None (not applicable), known) is filled as well."""
         by_obj = {}
         for i, c in enumerate(self.cases):
             by_obj.setdefault(c[0], []).append(i)
@@ -119,7 +126,7 @@ class Corr:
         shards, index = [], []
         for s in range(0, len(objs), shard_objs):
             chunk = objs[s:s + shard_objs]
-            lines = [HEAD]
+            lines = [HEAD if pcheck is None else HEAD.replace("Model.Render.\n", "Model.Render %s.\n" % pcheck[0]) + pcheck[1] + JUDGE2]
             idxs = []
             for o in chunk:
                 lines.append("Definition t%d : term := %s." % (o, self.items[o][1]))
@@ -131,12 +138,13 @@ class Corr:
                     ents.append("(%s, %s, t%d, %s, %s)" % (ctx_coq(ctx), pz_coq(mode), o, cstr(sql), clist(vals, cstr)))
                     idxs.append(i)
             lines.append(";\n".join(ents))
-            lines.append('].\nGoal True. idtac "@@CODES". Abort.\nEval vm_compute in (codes (map judge cases)).\n')
+            lines.append('].\nGoal True. idtac "@@CODES". Abort.\nEval vm_compute in (codes (map %s cases)).\n' % ("judge" if pcheck is None else "judge2"))
             nm = "%s_%04d" % (self.prefix, len(shards))
             shards.append((nm, "\n".join(lines)))
             index.append(idxs)
         res = core.run_shards(self.run.workdir, shards, timeout=1200)
         agree = [None] * len(self.cases)
+        self.verdicts = [None] * len(self.cases)
         errors = []
         for (nm, _), idxs in zip(shards, index):
             rc, out = res[nm]
@@ -145,7 +153,9 @@ class Corr:
                 errors.append("%s: rc=%s %s" % (nm, rc, out[-400:]))
                 continue
             for i, c in zip(idxs, codes):
-                agree[i] = (c == "1")
+                v = ord(c) - 48
+                agree[i] = bool(v & 1)
+                self.verdicts[i] = {"agree": bool(v & 1), "pcheck": (bool(v & 2) if v & 4 else None), "known": bool(v & 8)}
         return agree, errors
 
     def debug_case(self, i):
